@@ -2157,6 +2157,20 @@ class Measurement:
         other_upper = other.measurand + other.uncertainty
         return self_upper >= other_upper
 
+    def _uncertainty_of(self, other: "Measurement") -> Quantity:
+        """The other measurement's uncertainty, ready to be combined with this one's.
+
+        An uncertainty is a difference between two readings, so on a scale with a zero
+        point (°C, °F) it converts by the size of the degree alone, not by the zero
+        point: ±0.4 °C is ±0.4 K, not ±273.55 K"""
+        ours, theirs = self.uncertainty.unit, other.uncertainty.unit
+        if theirs is ours:
+            return other.uncertainty
+        zero = Quantity(0, theirs).in_unit(ours)
+        if not zero.magnitude:
+            return other.uncertainty
+        return other.uncertainty.in_unit(ours) - zero
+
     def __add__(self, other: Union["Measurement", Quantity]) -> "Measurement":
         if isinstance(other, Quantity):
             other = Measurement(other, 0)
@@ -2165,7 +2179,8 @@ class Measurement:
             return NotImplemented
 
         measurand = self.measurand + other.measurand
-        uncertainty = (self.uncertainty**2 + other.uncertainty**2).root(2)
+        theirs = self._uncertainty_of(other)
+        uncertainty = (self.uncertainty**2 + theirs**2).root(2)
         return Measurement(measurand, uncertainty)
 
     __radd__ = __add__
@@ -2178,7 +2193,8 @@ class Measurement:
             return NotImplemented
 
         measurand = self.measurand - other.measurand
-        uncertainty = (self.uncertainty**2 + other.uncertainty**2).root(2)
+        theirs = self._uncertainty_of(other)
+        uncertainty = (self.uncertainty**2 + theirs**2).root(2)
         return Measurement(measurand, uncertainty)
 
     def __rsub__(self, other: Union["Measurement", Quantity]) -> "Measurement":
